@@ -95,7 +95,9 @@ def load_known():
     return json.load(open(p))
 
 
-def run_check(check, tier="quick", seed=0, workers=None, replay=None, log=sys.stdout):
+def run_check(check, tier="quick", seed=0, workers=None, replay=None, log=sys.stdout, partial_budget_s=0):
+    """partial_budget_s > 0: explore for at most that long; a truncated exploration without violation is reported as such (exit 0,
+    evidence `exhaustive: false`), used for the deeper level of the thorough tier after the quick bounds were explored exhaustively"""
     global _W, _C, _OPTS
     t_start = time.time()
     pid = check.id
@@ -150,6 +152,7 @@ def run_check(check, tier="quick", seed=0, workers=None, replay=None, log=sys.st
     truncated = False
     hung = False
     wall_cap = float(os.environ.get("VERIF_WALL_CAP_S", "0")) or getattr(check, "wall_cap", {"quick": 900, "thorough": 5400})[tier]
+    if partial_budget_s: wall_cap = min(wall_cap, partial_budget_s)
     with cf.ProcessPoolExecutor(max_workers=workers, mp_context=ctx) as ex:
         running = set()
         while pending or running:
@@ -165,7 +168,7 @@ def run_check(check, tier="quick", seed=0, workers=None, replay=None, log=sys.st
             if time.time() - t_explore > wall_cap:
                 # watchdog: a stuck solver query or an exploding frontier must not hang the check
                 truncated = True
-                hung = True
+                hung = not partial_budget_s          # with a time budget this is the expected end of a partial exploration
                 for p in list(getattr(ex, "_processes", {}).values()):
                     try: p.kill()
                     except Exception: pass
@@ -257,7 +260,10 @@ def run_check(check, tier="quick", seed=0, workers=None, replay=None, log=sys.st
     if unsupported and not check.tolerate_unsupported:
         inconclusive.append(f"{sum(unsupported.values())} paths ended in an unsupported construct")
     if stats["unknown"]: inconclusive.append(f"{stats['unknown']} solver queries returned unknown")
-    if truncated: inconclusive.append(f"exploration truncated at {stats['paths']} paths (bound {max_paths}, wall cap {wall_cap:.0f}s{', watchdog fired' if hung else ''})")
+    partial = bool(truncated and partial_budget_s and not hung)
+    if partial:
+        say(f"[{pid}] the {tier} bounds were explored partially ({stats['paths']} paths in {explore_s:.0f}s, budget {partial_budget_s:.0f}s); no claim beyond the explored paths")
+    elif truncated: inconclusive.append(f"exploration truncated at {stats['paths']} paths (bound {max_paths}, wall cap {wall_cap:.0f}s{', watchdog fired' if hung else ''})")
     if unconfirmed: inconclusive.append(f"{len(unconfirmed)} candidate counterexamples did not reproduce natively")
     if disagreements: inconclusive.append(f"{len(disagreements)} translator-validation disagreements")
     if isinstance(canary, str): inconclusive.append("vacuity canary: " + canary)
@@ -282,7 +288,9 @@ def run_check(check, tier="quick", seed=0, workers=None, replay=None, log=sys.st
         "unconfirmed": len(unconfirmed), "candidates_outside_claim": dict(outside_cases), "translator_disagreements": len(disagreements), "unsupported_paths": sum(unsupported.values()),
         "unsupported_reasons": [w for w, _ in unsupported.most_common(5)], "truncated": truncated, "exhaustive": not truncated and not unsupported,
         "vacuity_canary": canary if canary is not None else "n/a", "workers": workers, "explore_s": round(explore_s, 1),
-        "verdict": {0: "holds within the bounds", 1: "violation", 2: "inconclusive"}[rc],
+        "verdict": ("held on every explored path; the bounds of this level were NOT exhausted (time budget)" if (partial and rc == 0) else
+                    {0: "holds within the bounds", 1: "violation", 2: "inconclusive"}[rc]),
+        "partial_level": partial,
         "explanation": "bounded symbolic execution of the crate's MIR (regenerated from the current tree); every path closed by z3; counterexamples replayed natively",
     }
     write_evidence(ev_path, pid, tier, seed, cov, check.assumptions, wall, len(confirmed))
